@@ -253,7 +253,7 @@ structure Extra where
   gain : Rat := 1
   mute : Bool := false
   posOff : Option Nat := none
-  deriving DecidableEq
+  deriving DecidableEq, Inhabited
 
 /-- `HOATypeMetadata` without its extra data. -/
 structure HoaMeta where
@@ -266,7 +266,7 @@ structure HoaMeta where
   normalization : Nat
   nfcRefDist : Option Rat
   screenRef : Bool
-  deriving DecidableEq
+  deriving DecidableEq, Inhabited
 
 /-- A rendering item; non-HOA items have singleton `tracks`/`channels`/`packPaths`/`importances`. -/
 structure Item where
@@ -281,7 +281,7 @@ structure Item where
   importances : List (Option Int × Option Int)
   blocks : List Nat
   hoa : Option HoaMeta
-  deriving DecidableEq
+  deriving DecidableEq, Inhabited
 
 /-- `_get_pack_format_path`. -/
 def getPackFormatPath (f : Formats) (p ch : Nat) : Except Err (List Nat) :=
